@@ -76,6 +76,12 @@ PROPS["C13"] = dict(units=["r1cs_compl"], assumptions=[A_ARK4, M_PRIME, M_ELL, M
     explanation="the verbatim gadget code is verified with honest hints (witness = value of the hint closure) and every enforced constraint / inverse as a proof obligation: synthesis returns Ok, all constraints hold, and outputs equal the native specification values (isqrt flag and root, sign, abs, encode, decode when native decoding succeeds, Elligator coordinates, equality, select)",
     not_decided=["LazyElementVar forcing order / constraint counts (RefCell interior mutability and the hidden ark_relations constraint store: no contract can mention them)", "AllocVar::new_variable plumbing, scalar multiplication gadget (arkworks default method)", "add/sub/negate/double forwarding to AffineVar (A-ARK-4)"])
 
+M_SQRT = "M-SQRT: correctness of the two square-root algorithms as mathematics (constant-time Tonelli-Shanks `our_sqrt`: x square => r^2 = x; Sarkar table decomposition: every looked-up alpha is in the order-256 subgroup and the accumulated discrete log is correct)"
+PROPS["C09"] = dict(units=["min_invsqrt", "consts"], assumptions=[M_SQRT, M_PRIME + " (Euler's criterion, no zero divisors, Fermat inverse)", A_WF],
+    explanation="minimal build: non_arkworks_sqrt_ratio_zeta ensures the four-case contract isqrt_ok for all num, den given our_sqrt's contract; pow_le_limbs == mpow(x, limbs_val) by loop invariant for any slice length; constants (zeta non-square, M, (M-1)/2, zeta^((1-M)/2), Fr (r+1)/4) by compute",
+    not_decided=["our_sqrt loop invariant (Tonelli-Shanks) -- assumed (M-SQRT)", "arkworks build: window algebra of sqrt_ratio_zeta and SquareRootTables::new -- assumed (M-SQRT); index bounds / overflow see unit ark_invsqrt when present", "Field::sqrt (arkworks generic routine over SQRT_PRECOMP, A-ARK-1)"])
+PROPS["C10"]["units"] = list(PROPS["C10"]["units"]) + ["fieldx_fq", "fieldx_fr", "fieldx_fp"]
+
 NOT_APPLICABLE = {
     "C15": "circuit shape / pinned Groth16 keys: the subject is the hidden ark_relations constraint store and binary key files; no pre/postcondition on a /repo function can state matrix equality across runs or SNARK verification (DESIGN.md C15)",
 }
